@@ -21,8 +21,12 @@ class C02(Spec):
     rule = ("one case = program + schedule prefix (a reachable state of the real queue with the other threads frozen "
             "mid-operation) + one busy thread that is then run alone; for the explored configurations every reachable "
             "model state (shortest prefix) × every busy thread, plus STARVATION prefixes (the victim loses its link/head CAS k = 1..20 (thorough: ..64) times in a row "
-            "to completing adversaries, the last one suspended between its two CASes) and random prefixes of larger "
-            "shapes; compared: the "
+            "to completing adversaries, the last one suspended between its two CASes), LONG-STALL-THEN-SOLO prefixes (the "
+            "solo thread slept before a CAS / load while 130-300 (thorough: ..1100) operations completed), FROZEN-HELPERS "
+            "prefixes (a pusher frozen between link and swing + k = 3..8 operations frozen before their next CAS; a fresh "
+            "Push, a fresh Pop, a helper and the owner each run solo), HOT-QUEUE prefixes (1100 (thorough: ..3300) lost "
+            "link-CAS races on the one queue object first), REUSED-OBJECT prefixes (long random runs on one queue) and "
+            "random prefixes of larger shapes; compared: the "
             "step log of prefix and solo run and the number of solo steps (the model's measure mu must bound it). "
             "non-trivial = the solo run contains a failed CAS or a helping CAS (needs more than one loop iteration)")
     trusted_base = ["controlled scheduler harness/csched + verifYield hooks in loom/queue.go (build tag verif)",
